@@ -514,12 +514,16 @@ def job_inplace_history(job):
 
                     def tod(mv, j=None):
                         return O.nz(fr.to_ref(mv.keys(), [(v[j] if j is not None else v) for v in mv.values()])) if len(mv.keys()) else {}
+                    cur = None
                     with warnings.catch_warnings():
                         warnings.simplefilter('ignore')
                         try:
                             if backing == 'list':
                                 a, b = mv_from(alg, ak_, list(av_)), mv_from(alg, bk, list(bv))
-                                run(alg, a, b)
+                                try:
+                                    run(alg, a, b)
+                                except Exception:
+                                    pass            # an earlier call that fails is a history like any other
                                 vals = a.values()
                                 for i_ in range(len(vals)):
                                     vals[i_] = vals[i_] * 2 + 1
@@ -528,7 +532,10 @@ def job_inplace_history(job):
                             else:
                                 a = mv_from(alg, ak_, [np.array([v, v + 1.0]) for v in av_])
                                 b = mv_from(alg, bk, [np.array([v, v + 2.0]) for v in bv])
-                                run(alg, a, b)
+                                try:
+                                    run(alg, a, b)
+                                except Exception:
+                                    pass
                                 a[1] = [float(7 + i_) for i_ in range(len(ak_))]
                                 cur = [float(v[1]) for v in a.values()]
                                 got = ('value', tod(run(alg, a, b), 1))
